@@ -28,6 +28,19 @@ HEADER = ("From Coq Require Import List NArith.\nFrom PV Require Import Conv.Mod
           "Definition A := builtin_arity.\n")
 
 
+_REPORTED = set()
+
+
+def report(res, fingerprint, what, replay_obj):
+  """at most one VIOLATION per fingerprint and three in total (known findings are de-duplicated by Result)."""
+  if fingerprint in res.known:
+    return res.violation(fingerprint, what, replay_obj)
+  if fingerprint in _REPORTED or len(_REPORTED) >= 3:
+    return False
+  _REPORTED.add(fingerprint)
+  return res.violation(fingerprint, what, replay_obj)
+
+
 def coq_bools(term_text):
   return [b.strip() == "true" for b in term_text.strip().strip("[]").split(";") if b.strip()]
 
@@ -55,6 +68,21 @@ def in_corr_domain(t):
       return False
     return all(in_corr_domain(p) for p in t[1])
   return False
+
+
+def type_not_preserved(t, want_post=False):
+  """runs the real round trip for one stub type; True if the downstream type differs (Python-side comparison, used
+  by the shrinker only)."""
+  try:
+    loaded, _, post, errs = L.round_trip(["x0: " + L.to_text(t)], os.path.join(WORK, "shrink_t"))
+  except Exception:  # pylint: disable=broad-except
+    return False
+  l, q = loaded[0], post[0]
+  if not l or not q or l[0] != "const" or q[0] not in ("const", "alias"):
+    return False
+  got = q[1] if q[0] == "const" else ("gen", L.TYPE_ID, (q[1],))
+  bad = L.py_canon(got) != L.py_canon(l[1]) and in_corr_domain(l[1]) and not contains_bare_type(l[1])
+  return (q if bad else None) if want_post else bad
 
 
 def contains_bare_type(t):
@@ -130,8 +158,8 @@ def correspondence(res, r, n_wild, n_dialect, corpus_types):
     fatal = [e for e in errs if e[0] in ("import-error", "pyi-error")]
     if fatal:
       n_err += 1
-      res.violation("downstream-error:" + fatal[0][0], "downstream module reports %r for a generated stub" % (fatal[0],),
-                    {"kind": "types", "stub": lines})
+      report(res, "downstream-error:" + fatal[0][0], "downstream module reports %r for a generated stub" % (fatal[0],),
+             {"kind": "types", "stub": lines})
     for (origin, t, dialect), l, p, q in zip(chunk, loaded, pre, post):
       cases.append({"origin": origin, "gen": t, "dialect": dialect, "loaded": l, "pre": p, "post": q})
   impl_s = time.time() - t0
@@ -140,11 +168,11 @@ def correspondence(res, r, n_wild, n_dialect, corpus_types):
   skipped = [c for c in cases if c not in usable]
   crashes = [c for c in cases if c["pre"] and c["pre"][0] == "crash"]
   for c in crashes[:3]:
-    res.violation("downstream-crash:" + c["pre"][1][:60], "analysing `from A import x` raised: " + c["pre"][1],
-                  {"kind": "types", "stub": ["x0: " + L.to_text(c["gen"])]})
+    report(res, "downstream-crash:" + c["pre"][1][:60], "analysing `from A import x` raised: " + c["pre"][1],
+           {"kind": "types", "stub": ["x0: " + L.to_text(c["gen"])]})
   # model run
   bodies = []
-  CH = 400
+  CH = 180
   for k in range(0, len(usable), CH):
     chunk = usable[k:k + CH]
     body = HEADER
@@ -163,6 +191,7 @@ def correspondence(res, r, n_wild, n_dialect, corpus_types):
   n_oracle_bad = 0
   n_wf = 0
   n_known = 0
+  n_outside = 0
   hist = {}
   for k, (name, _) in enumerate(bodies):
     ok, out = outs[name]
@@ -192,16 +221,24 @@ def correspondence(res, r, n_wild, n_dialect, corpus_types):
                          "T=%s: real convert->output gives %s %s, the model differs" %
                          (L.to_text(T), c["pre"][0], L.to_text(c["pre"][1])))
       # direct oracle on the implementation: a dialect type must come back as the same type
-      if c["dialect"] and in_corr_domain(T) and not sp:
+      if c["dialect"] and not w and not contains_bare_type(T):
+        n_outside += 1
+      if c["dialect"] and in_corr_domain(T) and (w or contains_bare_type(T)) and not sp:
         what = "upstream `x: %s` is seen downstream as `%s %s`" % (L.to_text(T), c["post"][0], L.to_text(c["post"][1]))
         replay = {"kind": "types", "stub": ["x0: " + L.to_text(T)]}
         if contains_bare_type(T):
           n_known += 1
-          res.violation(KNOWN_BARE_TYPE, what, replay)
+          report(res, KNOWN_BARE_TYPE, what, replay)
         else:
           n_oracle_bad += 1
-          if n_oracle_bad <= 3:
-            res.violation("type-not-preserved:" + L.shape(T, 1), what, replay)
+          fp = "type-not-preserved:" + L.shape(T, 1)
+          if fp not in _REPORTED and len(_REPORTED) < 3:
+            small = L.shrink_type(T, type_not_preserved, 20.0 if not _REPORTED else 8.0)
+            q2 = type_not_preserved(small, want_post=True)
+            if q2:
+              what = "upstream `x: %s` is seen downstream as `%s %s`" % (L.to_text(small), q2[0], L.to_text(q2[1]))
+              replay = {"kind": "types", "stub": ["x0: " + L.to_text(small)], "original": "x0: " + L.to_text(T)}
+          report(res, fp, what, replay)
       # the theorem's hypothesis is monitored: whenever wf_top holds the model itself must round-trip
       if w and not ms:
         res.obligation("theorem-instance:" + c["origin"], False, "wf_top T but canon(out(conv T)) <> canon T: " + L.to_text(T))
@@ -215,6 +252,7 @@ def correspondence(res, r, n_wild, n_dialect, corpus_types):
   res.extra["corr_in_dialect_wf"] = n_wf
   res.extra["corr_hist"] = hist
   res.extra["corr_known_bare_type"] = n_known
+  res.extra["corr_dialect_stream_outside_wf"] = n_outside
   res.extra["corr_impl_s"] = round(impl_s, 1)
   res.extra["corr_model_s"] = round(model_s, 1)
 
@@ -231,18 +269,27 @@ def run_workers(jobs, n_workers, deadline):
     p = subprocess.Popen([common.PY, "-u", worker, wd], stdin=subprocess.PIPE, stdout=subprocess.PIPE,
                          stderr=subprocess.DEVNULL, text=True, env=env)
     procs.append(p)
-  # static round-robin split, written up front; workers stream results back
-  for i, j in enumerate(jobs):
-    procs[i % n_workers].stdin.write(json.dumps(j) + "\n")
-  for p in procs:
-    p.stdin.close()
-  results = {}
+  # dynamic dispatch: one job in flight per worker (keeps the pipes small and balances the load)
   import selectors
+  pending = list(jobs)
+  results = {}
   sel = selectors.DefaultSelector()
+  def feed(p):
+    if pending and time.time() < deadline:
+      p.stdin.write(json.dumps(pending.pop(0)) + "\n")
+      p.stdin.flush()
+      return True
+    try:
+      p.stdin.close()
+    except OSError:
+      pass
+    return False
+  open_n = 0
   for p in procs:
     sel.register(p.stdout, selectors.EVENT_READ, p)
-  open_n = len(procs)
-  while open_n and time.time() < deadline:
+    open_n += 1
+    feed(p)
+  while open_n and time.time() < deadline + 30:
     for key, _ in sel.select(timeout=1.0):
       line = key.fileobj.readline()
       if not line:
@@ -254,6 +301,7 @@ def run_workers(jobs, n_workers, deadline):
         results[r["id"]] = r
       except ValueError:
         pass
+      feed(key.data)
   for p in procs:
     if p.poll() is None:
       p.kill()
@@ -335,21 +383,19 @@ def e2e(res, r, n_programs, n_workers, budget_s, corpus_programs):
     for iss in rr.get("issues", []):
       if iss["kind"] == KNOWN_BARE_TYPE and not seen_known:
         seen_known = True
-        res.violation(KNOWN_BARE_TYPE, iss["what"], {"kind": "program", "src": src, "transport": iss["transport"]})
+        report(res, KNOWN_BARE_TYPE, iss["what"], {"kind": "program", "src": src, "transport": iss["transport"]})
     if st == "violation":
       reported += 1
-      if reported > 3:
-        continue
       kind = rr.get("kind")
+      fp = "%s:%s" % (kind, rr.get("transport"))
+      if fp in _REPORTED or len(_REPORTED) >= 3:
+        continue
       small = src
-      if kind not in ("crash",) or True:
-        try:
-          small = shrink_program(src, kind, (rr.get("transport"),) if kind != "transports-differ" else E.TRANSPORTS, 20)
-        except Exception:  # pylint: disable=broad-except
-          small = src
-      fp = "%s:%s" % (kind, (rr.get("source") or rr.get("transport") or "")[:40]) if kind != "type-differs" \
-          else "type-differs:%s" % rr.get("transport")
-      res.violation(fp, "[%s] %s" % (rr.get("transport"), rr.get("what")),
+      try:
+        small = shrink_program(src, kind, (rr.get("transport"),) if kind != "transports-differ" else E.TRANSPORTS, 20)
+      except Exception:  # pylint: disable=broad-except
+        small = src
+      report(res, fp, "[%s] %s" % (rr.get("transport"), rr.get("what")),
                     {"kind": "program", "src": small, "original_src": src, "transport": rr.get("transport"),
                      "detail": {k: rr.get(k) for k in ("what", "name", "source", "stub_0", "stub_1", "trace") if k in rr}})
   if len(res.samples) < 6:
@@ -359,8 +405,9 @@ def e2e(res, r, n_programs, n_workers, budget_s, corpus_programs):
                     "names compared": rr.get("n_expect")})
         break
   done = len(results)
-  res.obligation("e2e:programs-analysed", done >= max(1, int(0.6 * len(jobs))) and stats.get("skip", 0) <= done // 4,
-                 "%d of %d programs finished within the budget; %r" % (done, len(jobs), stats))
+  # the budget is wall time (the machine is shared): require a floor, record the number reached
+  res.obligation("e2e:programs-analysed", done >= min(len(jobs), 12) and stats.get("skip", 0) <= done // 4,
+                 "%d of %d programs finished within the %ds budget; %r" % (done, len(jobs), budget_s, stats))
   res.extra["e2e_programs"] = done
   res.extra["e2e_status"] = stats
   res.extra["e2e_names_compared_per_transport"] = n_expect
@@ -412,9 +459,9 @@ def run(res):
   r = common.rng(res.seed, "c06")
   corpus_types, corpus_programs = load_corpus()
   class_table_obligation(res)
-  n_wild, n_dialect = (2500, 2500) if thorough else (350, 350)
+  n_wild, n_dialect = (2500, 2500) if thorough else (300, 300)
   correspondence(res, r, n_wild, n_dialect, corpus_types)
-  n_prog, budget = (2600, 780) if thorough else (150, 70)
+  n_prog, budget = (4000, 720) if thorough else (400, 50)
   e2e(res, common.rng(res.seed, "c06-e2e"), n_prog, 4, budget, corpus_programs)
   if thorough:
     ok, out = common_coqchk("C06")
